@@ -145,18 +145,19 @@ type Sim struct {
 	TimerEarlyPermille int
 
 	// results
-	Failed  *Violation
-	Panics  []PanicInfo
-	counts  []countEntry
-	hash    uint64
-	log     []string
-	logPos  int
-	Trunc   bool
-	Stalled []string // tasks blocked at the end of the run
-	spinSig uint64
-	spinRun int
-	last    *Task
-	SpinHit string
+	Failed       *Violation
+	Panics       []PanicInfo
+	counts       []countEntry
+	hash         uint64
+	log          []string
+	logPos       int
+	Trunc        bool
+	Stalled      []string // tasks blocked at the end of the run
+	quiesceGrace bool
+	spinSig      uint64
+	spinRun      int
+	last         *Task
+	SpinHit      string
 
 	// hooks
 	OnStep func() // runs on the controller after every step
@@ -390,6 +391,9 @@ func (s *Sim) loop() {
 		if len(runnable) == 0 {
 			if q := s.quiesceWaiter(); q != nil {
 				q.state = stRunnable
+				// no timer may be fired early between this wake-up and the
+				// waiter's next step: it has been promised a quiescent world
+				s.quiesceGrace = true
 				continue
 			}
 			if len(s.timers) > 0 {
@@ -402,7 +406,7 @@ func (s *Sim) loop() {
 			s.Trunc = true
 			return
 		}
-		if s.TimerEarlyPermille > 0 && len(s.timers) > 0 {
+		if s.TimerEarlyPermille > 0 && len(s.timers) > 0 && !s.quiesceGrace {
 			if s.chooseRaw(StreamFault, 1000) < s.TimerEarlyPermille {
 				s.Count("fault:timer-early")
 				s.fireNextTimer()
@@ -428,6 +432,7 @@ func (s *Sim) loop() {
 			s.spinRun = 0
 		}
 		t := s.pick(runnable)
+		s.quiesceGrace = false
 		s.last = t
 		s.steps++
 		t.steps++
